@@ -265,6 +265,19 @@ Proof.
   - intros id0 k f i a Hin. destruct (S3 _ _ _ _ _ Hin) as [A B]. split; [exact A|now apply FL].
 Qed.
 
+Lemma sh_add_disc st id st' e tr : SH st' e tr -> SH st' e (tr ++ disc_ghost st id st').
+Proof.
+  intros [S1 S2 S3]. constructor; [exact S1|exact S2|].
+  intros id0 k f i a Hin. apply in_app_or in Hin as [Hin | Hin]; [eapply S3; exact Hin|].
+  unfold disc_ghost in Hin. destruct (slab_get (r_obufs st) id) as [o|]; [|destruct Hin].
+  destruct (slab_get (r_trackers st) id) as [t|]; [|destruct Hin]. destruct (slab_get (r_conns st) id) as [c|]; [|destruct Hin].
+  destruct (c_clean c); [destruct Hin|].
+  destruct (al_get str_eqb (tr_id t) (r_graveyard st')) as [[ss|]|] eqn:Eg; try destruct Hin.
+  apply in_map_iff in Hin as (rq & E & Hrq). inversion E; subst. apply filter_In in Hrq as [Hrq Hu].
+  apply al_get_In in Eg. specialize (S2 _ _ Eg). rewrite Forall_forall in S2. specialize (S2 _ Hrq).
+  unfold shp in S2. unfold unshared_b in Hu. destruct (dr_group rq); [discriminate|]. exact S2.
+Qed.
+
 Lemma handle_device_payload_sh st id st' evs tr :
   LogsInv (r_datalog st) -> SH st [] tr ->
   handle_device_payload_d st id = Ok (st', evs) -> LogsInv (r_datalog st') /\ SH st' [] (tr ++ evs).
@@ -276,18 +289,20 @@ Proof.
   assert (HS0 : SH st0 [] tr) by (apply (sh_frame st st0 [] [] tr); [apply hsub_view; reflexivity|apply fi_le_refl|reflexivity|exact HS]).
   apply bind_ok in H as ([[st1 fl] evs1] & H1 & H).
   apply bind_ok in H as (st2 & H2 & H). apply bind_ok in H as (st3 & H3 & H). apply bind_ok in H as (st4 & H4 & H). inv_ok.
-  destruct (handle_packets_sh id (i_client inc) (lk_in b) st0 flags0 st1 fl evs tr LI HS0 H1) as [LI1 HS1].
-  assert (X2 : LogsInv (r_datalog st2) /\ SH st2 [] (tr ++ evs)).
+  destruct (handle_packets_sh id (i_client inc) (lk_in b) st0 flags0 st1 fl evs1 tr LI HS0 H1) as [LI1 HS1].
+  assert (X2 : LogsInv (r_datalog st2) /\ SH st2 [] (tr ++ evs1)).
   { destruct (f_force_ack fl); [|inv_ok; auto]. pose proof (reschedule_dl _ _ _ _ H2) as ED. split; [now rewrite ED|].
-    apply (sh_frame st1 st2 [] [] (tr ++ evs)); [eapply reschedule_hsub; exact H2|now apply fi_le_eq
+    apply (sh_frame st1 st2 [] [] (tr ++ evs1)); [eapply reschedule_hsub; exact H2|now apply fi_le_eq
                      |apply kid_grave; exact ((SessionIds.fi_reschedule st1 id SFreshData) _ H2)|exact HS1]. }
   destruct X2 as [LI2 HS2].
-  assert (X3 : LogsInv (r_datalog st3) /\ SH st3 [] (tr ++ evs)).
+  assert (X3 : LogsInv (r_datalog st3) /\ SH st3 [] (tr ++ evs1)).
   { destruct (f_new_data fl); [|inv_ok; auto]. pose proof (drain_notifications_dl _ _ H3) as ED. split; [now rewrite ED|].
-    apply (sh_frame st2 st3 [] [] (tr ++ evs)); [eapply drain_notifications_hsub; exact H3|now apply fi_le_eq
+    apply (sh_frame st2 st3 [] [] (tr ++ evs1)); [eapply drain_notifications_hsub; exact H3|now apply fi_le_eq
                      |apply kid_grave; exact ((SessionIds.fi_drain_notifications st2) _ H3)|exact HS2]. }
   destruct X3 as [LI3 HS3].
-  destruct (f_disconnect fl); [|inv_ok; auto]. eapply handle_disconnection_sh; eassumption.
+  destruct (f_disconnect fl); [|inv_ok; rewrite app_nil_r; auto].
+  destruct (handle_disconnection_sh _ _ _ _ _ LI3 HS3 H4) as [LI4 HS4]. split; [exact LI4|].
+  rewrite app_assoc. now apply sh_add_disc.
 Qed.
 
 (* ------------------------------------------------------------------ sweeps *)
@@ -427,21 +442,27 @@ Qed.
 Lemma handle_new_connection_sh st conn link st' tr :
   LogsInv (r_datalog st) -> SH st [] tr ->
   handle_new_connection st conn link = Ok st' ->
-  LogsInv (r_datalog st') /\ SH st' [] (tr ++ conn_ghost st' (c_client conn) link).
+  LogsInv (r_datalog st') /\ SH st' [] (tr ++ take_ghost st (c_client conn) ++ conn_ghost st' (c_client conn) link).
 Proof.
-  intros LI HS H.
-  assert (Hadd : forall s, SH s [] tr -> SH s [] (tr ++ conn_ghost s (c_client conn) link)).
-  { intros s [S1 S2 S3]. constructor; [exact S1|exact S2|].
+  intros LI HS H. rewrite app_assoc.
+  assert (Hadd : forall s tr0, SH s [] tr0 -> SH s [] (tr0 ++ conn_ghost s (c_client conn) link)).
+  { intros s tr0 [S1 S2 S3]. constructor; [exact S1|exact S2|].
     intros id k f i a Hin. apply in_app_or in Hin as [Hin | Hin]; [eapply S3; eassumption|].
     destruct (conn_ghost_ev s (c_client conn) link id (k, f, i) a Hin) as (rq & t & Ht & Hrq & Hg & Hk).
     inversion Hk; subst. assert (Hs : shp (findex s) rq) by (apply (S1 id rq); left; left; exists t; auto).
     unfold shp in Hs. rewrite Hg in Hs. exact Hs. }
-  unfold handle_new_connection in H.
-  destruct (negb (validate_clientid (c_client conn))); [inv_ok; auto|].
+  unfold handle_new_connection in H. unfold take_ghost.
+  destruct (validate_clientid (c_client conn)); cbn [negb] in H; [|inv_ok; rewrite app_nil_r; auto].
   apply bind_ok in H as (st1 & H1 & H).
-  assert (X1 : LogsInv (r_datalog st1) /\ SH st1 [] tr).
-  { destruct (al_get str_eqb (c_client conn) (r_cmap st)) as [cid|]; [|inv_ok; auto]. eapply handle_disconnection_sh; eassumption. }
+  set (tg := match al_get str_eqb (c_client conn) (r_cmap st) with
+             | Some cid => match handle_disconnection st cid None with Ok s => disc_ghost st cid s | _ => [] end
+             | None => [] end).
+  assert (X1 : LogsInv (r_datalog st1) /\ SH st1 [] (tr ++ tg)).
+  { unfold tg. destruct (al_get str_eqb (c_client conn) (r_cmap st)) as [cid|]; [|inv_ok; rewrite app_nil_r; auto].
+    rewrite H1. destruct (handle_disconnection_sh _ _ _ _ _ LI HS H1) as [LI1 HS1]. split; [exact LI1|]. now apply sh_add_disc. }
   destruct X1 as [LI1 HS1]. clear H1 HS LI.
+  remember (tr ++ tg) as trx eqn:Etrx.
+  clear Etrx.
   destruct (cf_max_connections (r_cfg st1) <=? slab_len (r_conns st1)); [inv_ok; auto|].
   match type of H with (match ?X with _ => _ end) = _ => destruct X as [[trk conn1] pubrels] eqn:EX end.
   destruct (slab_insert (r_conns st1) (set_c_will conn1 None)) as [conns id] eqn:Ic.
@@ -460,7 +481,7 @@ Proof.
     - destruct (al_get str_eqb (c_client conn) (r_graveyard st1)) as [[ss|]|] eqn:Es; inv_ok; cbn [tr_reqs]; try constructor.
       apply al_get_In in Es. eapply S2; exact Es.
     - inv_ok. constructor. }
-  assert (HS2 : SH st2 [] tr).
+  assert (HS2 : SH st2 [] trx).
   { constructor.
     - intros c rq [Hh | []]. change (findex st2) with (findex st1).
       destruct Hh as [(t & Ht & Hin) | [Hw | Hn]].
@@ -514,7 +535,8 @@ Proof.
     apply (sh_frame s0 st' [] [] tr); [eapply reschedule_hsub; exact H3|now apply fi_le_eq
                                       |apply kid_grave; exact ((SessionIds.fi_reschedule s0 id SReady) _ H3)|exact HS0].
   - apply bind_ok in H1 as ([st2 out2] & H2 & H1). inv_ok. cbn [step] in H2.
-    apply bind_ok in H2 as (st1 & H3 & H2). inv_ok. rewrite app_nil_r. eapply handle_disconnection_sh; eassumption.
+    apply bind_ok in H2 as (st1 & H3 & H2). inv_ok.
+    destruct (handle_disconnection_sh _ _ _ _ _ LI0 HS0 H3) as [LI1 HS1]. split; [exact LI1|]. now apply sh_add_disc.
   - apply bind_ok in H1 as ([st2 out2] & H2 & H1). inv_ok. cbn [step] in H2.
     apply bind_ok in H2 as (st1 & H3 & H2). inv_ok.
     pose proof (retrieve_shadow_cview _ _ _ _ H3) as V. unfold cview in V. inversion V as [[E1 E2 E3 E4 E5 E6 E7]].
